@@ -14,6 +14,8 @@ Follow(e) ==
     [] e.a = "HonestProposal"  -> PHonestProposal(n, [blk |-> e.blk, tc |-> e.tc])
     [] e.a = "RelayedProposal" -> PRelayedProposal(n, [blk |-> e.blk, tc |-> e.tc])
     [] e.a = "ByzProposal"     -> PByzProposal(n, [blk |-> e.blk, tc |-> e.tc])
+    [] e.a = "LateProposal"    -> PLateProposal(n, [blk |-> e.blk, tc |-> e.tc])
+    [] e.a = "PayloadResume"   -> PPayloadResume(n, e.blk)
     [] e.a = "HonestVote"      -> PHonestVote(n, [blk |-> e.blk, author |-> e.author, to |-> e.to])
     [] e.a = "ByzVote"         -> PByzVote(n, e.blk, e.author)
     [] e.a = "HonestTimeout"   -> PHonestTimeout(n, [round |-> e.round, author |-> e.author, hq |-> e.hq])
